@@ -12,7 +12,8 @@ import (
 func init() { checks["C02"] = c02 }
 
 // the last name holds its own prefix followed by a dot ("...ex.html"): a compact IRI is cut at its FIRST dot
-var c02Preds = []string{"a", "b", "c", "d", "index.html"}
+// local names as written in a path; `\\/` is the escaped spelling of a slash inside a name
+var c02Preds = []string{"a", "b", "c", "d", "index.html", `seg\/ment`}
 var c02Lits = []string{"s1", "s2", "s3"}
 
 func genPath(r *rand.Rand, depth int, allowType bool) lib.Path {
@@ -247,7 +248,7 @@ func c02GraphOpt(r *rand.Rand, blank bool) *lib.Graph {
 				}
 				if !seen[v.Key()] {
 					seen[v.Key()] = true
-					node.Add(lib.EX+p, v)
+					node.Add(lib.EX+strings.ReplaceAll(p, `\/`, "/"), v)
 				}
 			}
 		}
